@@ -1278,3 +1278,47 @@ Proof.
       + assert (ss / st_size t <= ss) by (apply N.div_le_upper_bound; [assumption|nia]). lia. }
   rewrite R. apply arr_copy_to_count_lemma; lia.
 Qed.
+
+(* ================================================================== C04big: the length-level model
+   of one large bulk transfer satisfies the length-level checker (all sizes below 2^32) *)
+Lemma big_get_slice pre n off cnt : off + cnt < W64 ->
+  vs_get_slice {| vs_addr := pre; vs_size := n |} off cnt =
+  if off + cnt <=? n then Ok {| vs_addr := pre + off; vs_size := cnt |} else Err EOutOfBounds.
+Proof.
+  intros H. unfold vs_get_slice, vs_subslice, compute_end_offset, compute_offset, checked_add. cbn [vs_size vs_addr].
+  destruct (N.ltb_spec (off + cnt) W64) as [_|X]; [|lia].
+  destruct (N.ltb_spec n (off + cnt)); destruct (N.leb_spec (off + cnt) n); try lia; reflexivity.
+Qed.
+
+Lemma BIGLIM_small : 17 * BIGLIM < W64.
+Proof. rewrite W64_val. unfold BIGLIM. lia. Qed.
+
+Lemma C04big_model_ok_lemma : forall c, wf_big c = true -> ok_C04big c (run_C04big c) = true.
+Proof.
+  intros c Hw. pose proof BIGLIM_small as HB. pose proof Hw as Hw'.
+  unfold wf_big in Hw'. repeat (apply andb_true_iff in Hw'; destruct Hw' as [Hw' ?]).
+  repeat match goal with
+         | H : (_ <? _) = true |- _ => apply N.ltb_lt in H
+         | H : (_ <=? _) = true |- _ => apply N.leb_le in H
+         end.
+  assert (Hm : b_cnt c * b_sz c < 16 * BIGLIM) by nia.
+  assert (Hm2 : N.min (b_blen c) (b_cnt c) * b_sz c <= b_cnt c * b_sz c) by (apply N.mul_le_mono_r; lia).
+  assert (Hd : b_cnt c / b_sz c * b_sz c <= b_cnt c) by (rewrite N.mul_comm; apply N.mul_div_le; lia).
+  assert (Hm3 : N.min (b_blen c) (b_cnt c / b_sz c) * b_sz c <= b_cnt c).
+  { etransitivity; [|exact Hd]. apply N.mul_le_mono_r. lia. }
+  unfold BIGLIM in *. rewrite W64_val in HB.
+  unfold ok_C04big, run_C04big, big_model, big_spec, big_frame.
+  destruct (b_route c) eqn:R; cbn [vs_size vs_addr];
+    rewrite ?big_get_slice by (rewrite W64_val; lia).
+  all: repeat match goal with
+       | |- context [if ?b =? ?d then _ else _] => destruct (N.eqb_spec b d)
+       | |- context [if ?b <=? ?d then _ else _] => destruct (N.leb_spec b d)
+       | |- context [negb (?b =? ?d)] => destruct (N.eqb_spec b d)
+       | |- context [(?b <=? ?d) && _] => destruct (N.leb_spec b d)
+       end; cbn [negb andb g_kind g_count g_lo g_m g_ok g_err x_must x_count x_lo x_m bo_kind bo_count
+                 bo_bufdiff bo_heapdiff bo_first bo_last opt_allows Bool.eqb vs_addr vs_size] in *.
+  all: unfold BNONE in *; try discriminate; try lia.
+  all: rewrite ?andb_true_iff, ?N.eqb_eq, ?N.leb_le, ?N.ltb_lt; repeat split; try lia.
+  all: try (match goal with |- Bool.eqb (?x =? ?y) _ = true => destruct (N.eqb_spec x y); [reflexivity || lia|reflexivity || lia] end).
+  all: try (remember (b_cnt c / b_sz c) as qd; remember (N.min (b_blen c) qd * b_sz c) as mm; lia).
+Qed.
